@@ -31,6 +31,10 @@ type c05eCase struct {
 	Types    int     `json:"types"` // bit 0 LJH2.2, 1 LJH3, 2 OFF
 	Proj     []bool  `json:"projectors"`
 	Decimate int     `json:"decimate"` // 0: off, else level
+	// DecimateOff: decimation is switched off but a level is still set (left over from an earlier setting): one sample per point
+	DecimateOff bool `json:"decimate_off_level_set,omitempty"`
+	// OffBeyond: some channels' sub-frame offsets are not below the divisions (cards with unequal row counts give this)
+	OffBeyond bool `json:"offset_beyond_divisions,omitempty"`
 	NRec     int     `json:"nrec"`
 	Seed     int     `json:"seed"`
 	// Src: "" a scripted AnySource with generated geometry and identity; "triangle" / "simpulse": the real simulated source,
@@ -53,6 +57,8 @@ func c05eGen(t *rapid.T) c05eCase {
 	for i := 0; i < c.Nchan; i++ {
 		c.Proj = append(c.Proj, rapid.Bool().Draw(t, "proj"))
 	}
+	c.DecimateOff = c.Decimate > 0 && rapid.IntRange(0, 2).Draw(t, "decoff") == 0
+	c.OffBeyond = rapid.IntRange(0, 3).Draw(t, "offbeyond") == 0
 	c.Src = rapid.SampledFrom([]string{"", "", "triangle", "simpulse", "lancero"}).Draw(t, "src")
 	if c.Src != "" {
 		c.Decimate = 0
@@ -61,6 +67,15 @@ func c05eGen(t *rapid.T) c05eCase {
 }
 
 var c05eCounter int
+
+// subOff is the sub-frame offset the scripted source gives channel i.
+func (c c05eCase) subOff(i int) int {
+	off := (i * 5) % c.SubDiv
+	if c.OffBeyond && i%2 == 1 {
+		off += c.SubDiv * (1 + i%3)
+	}
+	return off
+}
 
 func c05eRun(c c05eCase) (v vVerdict) {
 	if c.Nchan < 1 || c.Nchan > 8 || (len(c.Proj) != c.Nchan && c.Src != "lancero") || c.Npre < 3 || c.Nsamp < c.Npre+1 || c.Nsamp > 200 || c.Rate <= 0 || c.SubDiv < 1 ||
@@ -153,7 +168,7 @@ func c05eRun(c c05eCase) (v vVerdict) {
 			ds.rowColCodes[i] = rcCode(i%c.Rows, i/c.Rows, c.Rows, c.Cols)
 			ds.chanNumbers[i] = 10 + 3*i
 			ds.chanNames[i] = fmt.Sprintf("ch%d", 10+3*i)
-			ds.subframeOffsets[i] = (i * 5) % c.SubDiv
+			ds.subframeOffsets[i] = c.subOff(i)
 		}
 	}
 	viper.Reset()
@@ -182,7 +197,7 @@ func c05eRun(c c05eCase) (v vVerdict) {
 	anyProj := false
 	for ch, dsp := range ds.processors {
 		if c.Decimate > 0 {
-			dsp.Decimate, dsp.DecimateLevel = true, c.Decimate
+			dsp.Decimate, dsp.DecimateLevel = !c.DecimateOff, c.Decimate
 		}
 		if c.Proj[ch] {
 			P := mat.NewDense(2, c.Nsamp, nil)
@@ -234,13 +249,13 @@ func c05eRun(c c05eCase) (v vVerdict) {
 		return vFailf("stop-rejected", "WriteControl STOP: %v", err)
 	}
 	fps := 1
-	if c.Decimate > 0 {
+	if c.Decimate > 0 && !c.DecimateOff {
 		fps = c.Decimate
 	}
 	for ch := 0; ch < c.Nchan; ch++ {
 		p := c05Params{ChanIndex: ch, ChanNumber: 10 + 3*ch, ChanName: fmt.Sprintf("ch%d", 10+3*ch), Source: "verifE", Npre: c.Npre, Nsamp: c.Nsamp, FPS: fps,
 			Timebase: 1.0 / c.Rate, OffsetNs: DastardStartTime.UnixNano(), Rows: c.Rows, Cols: c.Cols, Chans: c.Nchan, SubDiv: c.SubDiv,
-			Row: ch % c.Rows, Col: ch / c.Rows, SubOff: (ch * 5) % c.SubDiv, NBases: 2, Proj: projFlat, Basis: basisFlat, Description: "verif model E"}
+			Row: ch % c.Rows, Col: ch / c.Rows, SubOff: c.subOff(ch), NBases: 2, Proj: projFlat, Basis: basisFlat, Description: "verif model E"}
 		if c.Src != "" { // identity and geometry as the source announces them (C19 judges those tables); time base, lengths, records as generated
 			rc := ds.rowColCodes[ch]
 			p.ChanNumber, p.ChanName, p.Source = ds.chanNumbers[ch], ds.chanNames[ch], ds.name
